@@ -2840,3 +2840,7 @@ impl<T, S: StorageMut<Elem = T>, L: Layout, I: AsIndex<L>> IndexMut<I> for Weakl
 
 #[cfg(test)]
 mod tests;
+
+#[cfg(kani)]
+#[path = "/verif/kani/rten-tensor/tensor.rs"]
+mod verif_kani;
